@@ -9,6 +9,7 @@ import (
 	"sort"
 	"strconv"
 	"strings"
+	"sync/atomic"
 	"time"
 
 	"mosn.io/api"
@@ -20,6 +21,7 @@ func init() { hx.Register("C09", Run) }
 
 // op tokens:
 //   N / NF        pool.NewStream (+ send the request); NF: a connect attempted by this call fails
+//   NQ            like N, but the next operation follows at once (the harness does not wait for the request to arrive)
 //   R<s> / RC<s>  upstream answers stream s (RC: HTTP `Connection: close`)
 //   X<s>          upstream answers stream s with garbage
 //   L<s>          local reset of live stream s (what the proxy does on timeout / downstream reset)
@@ -68,6 +70,8 @@ func (w *world) apply(op string) string {
 		res = w.newStream(false)
 	case op == "NF":
 		res = w.newStream(true)
+	case op == "NQ":
+		res = w.newStreamOpt(false, false)
 	case strings.HasPrefix(op, "RC"):
 		w.response(num("RC"), true)
 	case strings.HasPrefix(op, "R"):
@@ -88,6 +92,9 @@ func (w *world) apply(op string) string {
 	case strings.HasPrefix(op, "CR"):
 		m := w.conns[num("CR")]
 		if m.up != nil {
+			// the upstream's own view flips at once (its reader goroutine would notice only later, and settle()
+			// must not see "both ends open" in between)
+			atomic.StoreInt32(&m.up.eof, 1)
 			m.up.c.Close()
 		}
 	case strings.HasPrefix(op, "CL"):
@@ -134,7 +141,7 @@ func (w *world) valid(op string) bool {
 		return n
 	}
 	switch {
-	case op == "N" || op == "NF" || op == "S" || op == "E+" || op == "Z":
+	case op == "N" || op == "NF" || op == "NQ" || op == "S" || op == "E+" || op == "Z":
 		return true
 	case op == "E-":
 		return w.ext > 0
@@ -236,7 +243,8 @@ func gen(c *hx.Ctx, rng *hx.Rng, length int) func(w *world, step int) string {
 		}
 		var cs []cand
 		add := func(op string, wt int) { cs = append(cs, cand{op, wt}) }
-		add("N", 30)
+		add("N", 27)
+		add("NQ", 4)
 		add("NF", 6)
 		for _, s := range live {
 			add(fmt.Sprintf("R%d", s), 14)
@@ -318,6 +326,7 @@ var boundary = [][]string{
 	{"N", "U0", "R0", "U0", "N", "R1"},
 	{"N", "N", "L0", "X1", "N", "N", "R2", "R3", "N", "N"},
 	{"N", "R0", "N", "R1", "N", "R2", "N", "R3", "N", "R4", "N", "R5"},
+	{"NQ", "CL0", "NQ", "CR1", "NQ", "L2", "NQ", "R3", "NQ", "X4", "N", "R5"},
 }
 
 func Run(c *hx.Ctx) {
@@ -360,6 +369,11 @@ func Run(c *hx.Ctx) {
 				}
 			}
 		}
+	}
+	// concurrent phase (support): books equal the truth again once concurrent leases, resets and closes have settled
+	for i := 0; i < c.N(6, 40); i++ {
+		k := kinds[i%2]
+		runConc(c, k, uint32(c.Rng.Intn(4)), uint32(c.Rng.Intn(4)), 2+c.Rng.Intn(5), 6+c.Rng.Intn(10), c.Seed*131+uint64(i))
 	}
 	// seeded random histories. hx.NewRng(k+1) is hx.NewRng(k) advanced by one draw, so neighbouring seeds would
 	// replay the same histories once their draw positions re-align: fork a well-mixed generator first.
